@@ -113,15 +113,19 @@ def strings(t: int, n: int, ms: int, mv: int) -> str:
     return _check_bounds(snaps[0], f_locals, mv, ms, 10, 5)
 
 
-def truncate(n: int, m: int) -> str:
+ALPHABETS = ["abcdefgh", "\x00" * 8, "a\x00\n\t\u00e9\U0001F600\\\x7f", "\x00b\x00\x00e\x00\x00\x00"]
+
+
+def truncate(n: int, m: int, ai: int = 0) -> str:
     """
-    String kernel over every length / limit pair: value == s[:max] and truncated == (len(s) > max).
-    PRE: 0 <= n <= 8 and 0 <= m <= 8
+    String kernel over every length / limit pair: value == s[:max] and truncated == (len(s) > max) - whatever the
+    characters are (NUL, control characters, backslashes, non-BMP): the limit counts characters of the value as stored.
+    PRE: 0 <= n <= 8 and 0 <= m <= 8 and 0 <= ai <= 3
     POST: _ == ""
     """
     world.begin_path()
-    n = world.realize(n)
-    text = "abcdefgh"[:n]
+    n, ai = world.realize(n), world.realize(ai)
+    text = ALPHABETS[ai][:n]
     snaps = _snapshot({"s": text}, 100, m, 10, 5)
     world.reached()
     if len(snaps) != 1 or len(snaps[0].frames[0].variables) != 1:
@@ -259,7 +263,7 @@ CONDITIONS = [
          twins=["reach", "mutant:trunc_flag_ge@t == 0 and n == 3 and ms <= 4"],
          bounds="3 templates with strings x size 1,3 x max_string_length 0..8 x UNBOUNDED symbolic max_variables"),
     dict(fn="truncate", cubes=["n == %d" % n for n in range(9)], twins=["reach", "mutant:trunc_flag_ge@n == 3"],
-         bounds="string length 0..8 x limit 0..8"),
+         bounds="string length 0..8 x limit 0..8 x 4 alphabets (ASCII, NULs, control / non-BMP / backslash, mixed)"),
     dict(fn="watch_limits", cubes=["wi == %d and kind == 0 and %s" % (w, m) for w in range(3) for m in _MD] + ["wi == 0 and kind == 1 and %s" % m for m in _MD],
          twins=["reach", "mutant:watch_default_limits@wi == 0 and kind == 0 and md >= 4"],
          bounds="3 watch expressions (existing big local, fresh nested structure, long string) and a log field, under SYMBOLIC limits"),
